@@ -75,6 +75,16 @@ fn func(is_async: bool, p: &[(&str, V)], r: Option<V>) -> Func {
 fn items(f: &[(&str, K)]) -> Vec<(String, K)> { f.iter().map(|(n, k)| (s(n), k.clone())).collect() }
 fn iface(id: Option<&str>, e: &[(&str, K)]) -> Iface { Iface { id: id.map(s), uses: vec![], exports: items(e) } }
 fn inst(e: &[(&str, K)]) -> K { K::Inst(iface(None, e)) }
+fn ninst(id: Option<&str>, e: &[(&str, K)]) -> K { K::Inst(iface(id, e)) }
+/// nested instance export: the export sets {a}, {a,b}, {b}, .. (subset / superset / incomparable / conflicting),
+/// with or without an interface identifier
+fn nested_variant(v: usize, id: Option<&str>) -> K {
+    match v % 7 {
+        0 => ninst(id, &[("a", f1())]), 1 => ninst(id, &[("a", f1()), ("b", f1())]), 2 => ninst(id, &[("b", f1())]),
+        3 => ninst(id, &[("a", f2())]), 4 => ninst(id, &[]), 5 => ninst(id, &[("a", f1()), ("b", f2())]),
+        _ => ninst(id, &[("a", f1()), ("m", ninst(id.map(|_| "dep:p/m@1.0.0"), &[("a", f1())]))]),
+    }
+}
 fn f1() -> K { K::Func(func(false, &[], None)) }
 fn f2() -> K { K::Func(func(false, &[("x", U8)], None)) }
 fn f3() -> K { K::Func(func(false, &[], Some(U8))) }
@@ -573,6 +583,20 @@ fn fixed_cases() -> Vec<Case> {
     add(own_types(vec![("foo", inst(&[("n", inst(&[("a", f1())]))])), ("foo", inst(&[("n", inst(&[("b", f1())]))]))]));
     add(own_types(vec![("foo", inst(&[("n", inst(&[("a", f1())]))])), ("foo", inst(&[("n", inst(&[("a", f1()), ("b", f1())]))])),
                        ("foo", inst(&[("n", inst(&[("a", f1()), ("b", f2())]))]))]));
+    // the same with NAMED nested interfaces: identifier equal to the export name, different from it, versioned
+    // (same version, compatible versions, incompatible versions), and named on one side only
+    for (ia, ib) in [(Some("n"), Some("n")), (Some("dep:p/n"), Some("dep:p/n")), (Some("dep:p/n@0.2.0"), Some("dep:p/n@0.2.0")),
+                     (Some("dep:p/n@0.2.0"), Some("dep:p/n@0.2.1")), (Some("dep:p/n@0.2.0"), Some("dep:p/n@0.3.0")),
+                     (Some("dep:p/n@0.2.0"), None), (Some("n"), Some("other:p/n"))] {
+        for (va, vb) in [(0usize, 1usize), (0, 2), (0, 0), (1, 5)] {
+            add(own_types(vec![("foo", inst(&[("n", nested_variant(va, ia))])), ("foo", inst(&[("n", nested_variant(vb, ib))]))]));
+        }
+        add(own_types(vec![("foo", inst(&[("n", nested_variant(0, ia)), ("f", f1())])), ("foo", inst(&[("n", nested_variant(1, ib))])),
+                           ("foo", inst(&[("n", nested_variant(2, ia)), ("g", f2())]))]));
+    }
+    add(own_types(vec![("a:b/c@0.2.0", named("a:b/c@0.2.0", &[("dep", nested_variant(0, Some("dep:p/n@1.0.0")))])),
+                       ("a:b/c@0.2.1", named("a:b/c@0.2.1", &[("dep", nested_variant(1, Some("dep:p/n@1.1.0")))])),
+                       ("a:b/c@0.2.3", named("a:b/c@0.2.3", &[("dep", nested_variant(2, Some("dep:p/n@1.0.0")))]))]));
     // defined types: equal through aliases; a type export reused by a function of the same interface
     let t = rec(&[("a", U8)]);
     add(own_types(vec![("foo", inst(&[("t", K::TValue(t.clone())), ("f", K::Func(func(false, &[("x", t.clone())], None)))])),
@@ -624,8 +648,7 @@ fn export_variant(name: &str, v: usize) -> K {
         "t" => [K::TValue(t.clone()), K::TValue(alias(t.clone())), K::TValue(rec(&[("a", STRING)])), K::TValue(rec(&[("b", U8)])), K::TValue(U8)][v % 5].clone(),
         "u" => [K::TValue(V::Enum(names(&["a", "b"]))), K::TValue(V::Enum(names(&["b", "a"]))), K::TValue(V::Flags(names(&["a", "b"]))),
                 K::TValue(V::Variant(vec![(s("a"), Some(U8)), (s("b"), None)]))][v % 4].clone(),
-        "n" => [inst(&[("a", f1())]), inst(&[("a", f1()), ("b", f1())]), inst(&[("b", f1())]), inst(&[("a", f2())]), inst(&[]),
-                inst(&[("a", f1()), ("b", f2())]), inst(&[("a", f1()), ("m", inst(&[("a", f1())]))])][v % 7].clone(),
+        "n" => nested_variant(v, None),
         "v" => [K::Value(U8), K::Value(STRING), K::Value(alias(U8))][v % 3].clone(),
         "r" => [K::TRes(res("r")), K::TRes(res("q")), K::TRes(Res { name: s("r2"), alias: Some(Box::new((None, res("r")))) })][v % 3].clone(),
         "k" => [K::Func(func(false, &[("x", V::Own(res("r")))], None)), K::Func(func(false, &[("x", V::Borrow(res("r")))], None))][v % 2].clone(),
@@ -645,6 +668,13 @@ fn gen_multiset(r: &mut Rng, p: &Pools) -> Case {
         _ => (0..4).map(|_| r.pick(&p.names).clone()).collect(),
     };
     let family_conflict = r.chance(1, 3);                  // some multisets are conflict-free by construction
+    // identifiers of nested instance exports: none / one identifier for all contributors / versions of one track / mixed
+    let nested_ids: Vec<Option<&str>> = match r.below(10) {
+        0..=3 => vec![None],
+        4..=5 => vec![Some(*r.pick(&["n", "dep:p/n", "dep:p/n@0.2.0"]))],
+        6..=7 => vec![Some("dep:p/n@0.2.0"), Some("dep:p/n@0.2.1"), Some("dep:p/n@0.2.3")],
+        _ => vec![None, Some("n"), Some("dep:p/n@0.2.0"), Some("dep:p/n@0.3.0"), Some("other:p/n")],
+    };
     let export_names = ["f", "g", "h", "t", "u", "n", "v", "r", "k", "w"];
     let weights = [5u64, 4, 3, 3, 2, 4, 1, 1, 1, 1];
     let total: u64 = weights.iter().sum();
@@ -684,7 +714,8 @@ fn gen_multiset(r: &mut Rng, p: &Pools) -> Case {
                     let en = export_names[idx];
                     if e.iter().any(|(k, _)| k == en) { continue; }
                     let v = if family_conflict && r.chance(1, 4) { 1 + r.below(6) as usize } else if en == "n" && r.chance(1, 2) { r.below(3) as usize } else { 0 };
-                    e.push((s(en), export_variant(en, v)));
+                    if en == "n" { e.push((s(en), nested_variant(v, *r.pick(&nested_ids)))); }
+                    else { e.push((s(en), export_variant(en, v))); }
                 }
                 let id = if name.contains(':') && r.chance(9, 10) { Some(name.clone()) } else if r.chance(1, 30) { Some(s("a:b/c@0.2.0")) } else { None };
                 K::Inst(Iface { id, uses: vec![], exports: e })
